@@ -5,9 +5,11 @@ The oracle is written from the statement with `datetime` and `Fraction` only; it
 the Lean model.  Inputs are calendar days (ordinals), date-times in whole milliseconds since
 1900-01-01T00:00, integer serials and day offsets.
 """
+import contextlib
 import datetime
 import os
 import subprocess
+import time
 from fractions import Fraction
 
 from .. import common, fx
@@ -29,13 +31,19 @@ RULE = ('calendar days 1900-01-01..9999-12-31 (quick: every 97th day, every day 
         'code produced for them; seeded pairs of date-times (incl. equal and 1 ms apart) under all six comparison operators; '
         'seeded (date, n) with n in -40000..40000 and small n under + and -; seeded date pairs under - and DAYS; DATEVALUE / N '
         'of dates given as DATE(y,m,d), as a variable, as ISO text and as a whole-number serial.  Formulas go through '
-        'Parser.parse, the sweeps call utils.serialize_date / utils.parse_date directly.  Every input is also given to the '
-        'Lean model (date.serial / date.parse / eval with the date as a variable) and the answers compared: exactly for whole '
+        'Parser.parse, the sweeps call utils.serialize_date / utils.parse_date directly.  '
+        'PROCESS TIME ZONE: date-times in and around the skipped and the repeated hour of a daylight-saving zone (2021-03-14 / '
+        '2021-11-07 and two other years, 01:30 02:00 02:15 02:30 03:00 03:15), summer and winter days, 1970-01-01 and a seeded '
+        'sample are evaluated once more (serial + round trip, comparisons of neighbours, DATEVALUE / N, whole days) while '
+        'os.environ["TZ"] = EST5EDT,M3.2.0,M11.1.0 + time.tzset() is in force (restored afterwards): same oracle, same model answer.  '
+        'Every input is also given to the Lean model (date.serial / date.parse / eval with the date as a variable) and the answers compared: exactly for whole '
         'days, within 4 ulp of the serial / 2+|us|/2^49 microseconds otherwise.  Non-trivial = not the special value '
         '1900-01-01T00:00 / serial < 61; distinct = distinct day, date-time, serial or operand tuple.')
 TRUSTED = ['CPython datetime (timedelta arithmetic, total_seconds, rounding of timedelta(seconds=float) to microseconds) and '
            'IEEE double arithmetic: the model computes the same expressions in exact rationals; the differential sweep over '
            'every day and every integer serial (exact agreement) and over seeded milliseconds (agreement within 4 ulp) ties them',
+           'os.environ["TZ"] + time.tzset() sets the process time zone (glibc POSIX rule, no tz database); the references of the '
+           'oracle are naive timedelta/Fraction arithmetic and do not consult it; the model has no time zone',
            'dateutil.parser for DATEVALUE of ISO-8601 text (the model recognises YYYY-MM-DD[ HH:MM[:SS]] only)',
            'the calendar constants (1900-01-01, 1970-01-01, 1899-12-30, 1900-03-01 as day offsets) are evaluated from '
            'lean/HotXL/Model/Calendar.lean by `decide`; that Calendar.lean is CPython\'s calendar is property C14\'s business']
@@ -163,7 +171,62 @@ def seeded_ms(rng, n):
     return out
 
 
+TZ_DST = 'EST5EDT,M3.2.0,M11.1.0'     # POSIX rule (no tz database needed): 02:00 -> 03:00 on 2021-03-14, 02:00 -> 01:00 on 2021-11-07
+
+
+@contextlib.contextmanager
+def process_tz(tz):
+    """run the body while the PROCESS time zone is `tz` (os.environ['TZ'] + time.tzset()); the previous zone is restored
+    whatever happens.  The references of this plugin are naive timedelta / Fraction arithmetic and never consult the zone."""
+    if tz is None:
+        yield
+        return
+    old = os.environ.get('TZ')
+    os.environ['TZ'] = tz
+    time.tzset()
+    try:
+        yield
+    finally:
+        if old is None:
+            os.environ.pop('TZ', None)
+        else:
+            os.environ['TZ'] = old
+        time.tzset()
+
+
+def ms_of(d):
+    return (d - D1900) // TD(milliseconds=1)
+
+
+def tz_cases(rng, scale):
+    """naive date-times mean the same serial whatever the process time zone is: date-times in and around the skipped and
+    the repeated hour of a daylight-saving zone, summer and winter days, and a seeded sample, evaluated under that zone"""
+    out = []
+    mss = []
+    for day in (DT(2021, 3, 14), DT(2021, 11, 7), DT(1987, 4, 5), DT(2030, 3, 10)):
+        for h, m in ((0, 0), (1, 30), (2, 0), (2, 15), (2, 30), (3, 0), (3, 15), (12, 0)):
+            mss.append(ms_of(day + TD(hours=h, minutes=m)))
+    mss += [ms_of(DT(2021, 7, 1)), ms_of(DT(2021, 1, 1)), ms_of(DT(1970, 1, 1)), ms_of(DT(1969, 12, 31, 21, 0)), 0, MS_DAY, MS_MAR1]
+    mss += seeded_ms(rng, 60 * scale)[16:]
+    for ms in mss:
+        out.append({'kind': 'dt', 'ms': ms, 'tz': TZ_DST})
+    for i in range(len(mss) - 1):
+        out.append({'kind': 'cmp', 'a': mss[i], 'b': mss[i + 1], 'tz': TZ_DST})
+        out.append({'kind': 'cmp', 'a': mss[i + 1], 'b': mss[i], 'tz': TZ_DST})
+    for ms in mss[:40]:
+        out.append({'kind': 'fn', 'ms': ms, 'tz': TZ_DST})
+        if ms % MS_DAY == 0:
+            out.append({'kind': 'day', 'o': O1900 + ms // MS_DAY, 'tz': TZ_DST})
+    return out
+
+
 def cases(rng, ctx):
+    out = _cases(rng, ctx)
+    out += tz_cases(rng, ctx['scale'] * (4 if ctx['tier'] == 'thorough' else 1))
+    return out
+
+
+def _cases(rng, ctx):
     thorough = ctx['tier'] == 'thorough'
     scale = ctx['scale'] * (4 if thorough else 1)
     out = []
@@ -380,6 +443,11 @@ def impl_serial(n):
 
 
 def impl(c):
+    with process_tz(c.get('tz')):
+        return _impl(c)
+
+
+def _impl(c):
     k = c['kind']
     u = utils()
     if k == 'day':
